@@ -468,6 +468,102 @@ func c06forgedCase(c *vf.Ctx, i int) {
 	}
 }
 
+// c06keyOf compares the decoded key with the 32 key bytes the string carries.
+func c06keyOf(c *vf.Ctx, family, s string, w *bchutil.WIF, raw []byte) {
+	if w == nil || w.PrivKey == nil {
+		return
+	}
+	c.Evals(1)
+	if got := w.PrivKey.Serialize(); !eqBytes(got, raw[1:33]) {
+		c.Failf("DecodeWIF/key", "family=%s string=%s: decoded key %x, the string carries %x", family, c06show(s), got, raw[1:33])
+	}
+	if w.CompressPubKey != (len(raw) == 38) {
+		c.Failf("DecodeWIF/flag", "family=%s string=%s: CompressPubKey=%v for a %d-byte payload", family, c06show(s), w.CompressPubKey, len(raw))
+	}
+}
+
+// c06zeroRunCase: valid WIF strings constructed to contain ten zero digits
+// ('1') in the middle of the number.
+func c06zeroRunCase(c *vf.Ctx, i int) {
+	net := allNets[i%len(allNets)]
+	compressed := (i/len(allNets))%2 == 1
+	bl, lb := 33, -1
+	if compressed {
+		bl, lb = 34, 1
+	}
+	var body []byte
+	for try := 0; try < 8; try++ {
+		b, ok := b58ZeroRunBody(c.R, []byte{net.P.PrivateKeyID}, bl, 7+c.R.Intn(26), lb)
+		if !ok {
+			continue
+		}
+		d := new(big.Int).SetBytes(b[1:33])
+		if d.Sign() > 0 && d.Cmp(ref.SecN) < 0 {
+			body = b
+			break
+		}
+	}
+	if body == nil {
+		c.Inc("zero_run_construction_failed")
+		return
+	}
+	raw := c06sum(body)
+	s := ref.B58Encode(raw)
+	c.Inc("wif_strings_with_run_of_ten_zero_digits")
+	c.Nontrivial(vf.Mix(0x60, vf.HashString(s)))
+	w := c06check(c, "zero-digit-run", s)
+	c06keyOf(c, "zero-digit-run", s, w, raw)
+	if c.WantSample() {
+		c.Sample(map[string]string{"wif_with_zero_digit_run": s})
+	}
+}
+
+// checksum collisions: pairs of different valid WIF strings whose four
+// checksum bytes are equal (birthday search), decoded back to back.
+type c06coll struct{ pairs [][2][]byte }
+
+func c06collInit(t vf.Tier, seed uint64) any {
+	r := vf.NewRand(vf.Mix(seed, 0xc0116))
+	seen := map[[4]byte][]byte{}
+	out := &c06coll{}
+	n := t.Sz(400000, 1500000)
+	for k := 0; k < n; k++ {
+		key := r.Bytes(32)
+		key[0] &= 0x7f
+		key[31] |= 1
+		net := allNets[k%len(allNets)]
+		raw := c06sum(c06body(net.P.PrivateKeyID, key, k%2 == 0))
+		var ck [4]byte
+		copy(ck[:], raw[len(raw)-4:])
+		if prev, ok := seen[ck]; ok {
+			out.pairs = append(out.pairs, [2][]byte{prev, raw})
+		} else {
+			seen[ck] = raw
+		}
+	}
+	return out
+}
+
+func c06collCase(c *vf.Ctx, i int) {
+	sh := c.Shared.(*c06coll)
+	if len(sh.pairs) == 0 {
+		c.Inconclusive("no-checksum-collision-found")
+		return
+	}
+	p := sh.pairs[i%len(sh.pairs)]
+	order := [][]byte{p[0], p[1], p[0], p[1], p[1], p[0]}
+	c.Inc("checksum_collision_pairs_decoded_back_to_back")
+	c.Nontrivial(vf.Mix(0x61, vf.HashBytes(p[0]), vf.HashBytes(p[1])))
+	for _, raw := range order {
+		s := ref.B58Encode(raw)
+		w := c06check(c, "checksum-collision-pair", s)
+		c06keyOf(c, "checksum-collision-pair", s, w, raw)
+	}
+	if c.WantSample() {
+		c.Sample(map[string]string{"a": ref.B58Encode(p[0]), "b": ref.B58Encode(p[1]), "equal_checksum": hx(p[0][len(p[0])-4:])})
+	}
+}
+
 func c06selfTest() error {
 	for _, f := range []func() error{ref.SelfTestSecp, ref.SelfTestBase58} {
 		if err := f(); err != nil {
@@ -504,6 +600,7 @@ func init() {
 		Title: "WIF private-key strings round-trip, are canonical and checksum-guarded",
 		Rule: "stream roundtrip: scalars 1..16, n-16..n-1, exactly 1..31 leading zero bytes, 2^255, then random (1/8 with forced leading zero bytes) x {uncompressed, compressed} x 6 networks, through NewWIF and through DecodeWIF of the reference encoding; " +
 			"stream corrupt: valid 37/38-byte payloads, every single-bit flip and all 255 other values at 4 rotating positions, checksum not recomputed; " +
+			"stream zero-digit-runs: valid WIFs constructed to contain ten zero digits in the middle of the Base58 number; stream checksum-collisions: pairs of different valid WIFs with equal checksum bytes (birthday search over 4e5 keys), decoded back to back; " +
 			"stream forged: recomputed-checksum families (every decoded length 0..45 and longer, every compression-marker value, every version byte, scalars 0/n/n+1/2^256-1, 1..4 extra leading '1', foreign characters, degenerate strings, version 0x00, checksum over the wrong slice, single wrong checksum bytes). " +
 			"A case is distinct per (scalar, version byte, flag) or per payload.",
 		Assumptions: []string{
@@ -518,6 +615,8 @@ func init() {
 			{Name: "roundtrip", N: func(t vf.Tier) int { return 64 + t.Sz(20000, 300000) }, Run: c06roundtripCase},
 			{Name: "corrupt", N: func(t vf.Tier) int { return t.Sz(6000, 60000) }, Run: c06corruptCase},
 			{Name: "forged", N: func(t vf.Tier) int { return t.Sz(9*800, 9*8000) }, Run: c06forgedCase},
+			{Name: "zero-digit-runs", N: func(t vf.Tier) int { return t.Sz(1200, 24000) }, Run: c06zeroRunCase},
+			{Name: "checksum-collisions", Workers: 1, Init: c06collInit, N: func(t vf.Tier) int { return t.Sz(60, 600) }, Run: c06collCase},
 		},
 	})
 }
